@@ -40,6 +40,26 @@ pub fn emit(e: &mut Emitter, seed: u64, thorough: bool) {
         FriReductionStrategy::MinSize(None), FriReductionStrategy::MinSize(Some(2)), FriReductionStrategy::ConstantArityBits(3, 1),
         FriReductionStrategy::ConstantArityBits(2, 0), FriReductionStrategy::Fixed(vec![2, 3, 3]), FriReductionStrategy::Fixed(vec![1, 4, 1, 1]),
     ];
+    // wide rows: gadgets whose gate-versus-arithmetic choice depends on the number of routed wires
+    // (exp_from_bits_const_base takes its arithmetic-gate path for up to routed/4 exponent bits: with 160
+    // routed wires that includes exponents of 33..40 bits — F-C01-3 was a 32-bit shift there)
+    {
+        let mut config = CircuitConfig::standard_recursion_config();
+        config.num_wires = 200; config.num_routed_wires = 160;
+        for (k, nbits) in [(0usize, 40usize), (1, 33), (2, 36)] {
+            let exp = (1u64 << (nbits - 1)) | (r.next() >> (65 - nbits)) | if k == 0 { 0 } else { 1 << 32 };
+            let prog = Prog { ops: vec![Op::Input(exp), Op::ExpConstBase(if k == 0 { 7 } else { r.below(P) }, 0, nbits), Op::Public(1), Op::Public(0)], tables: vec![], skip_connect: false };
+            let (_, expected) = prog.eval();
+            let what = format!("exp_from_bits_const_base with {nbits} exponent bits, 160 routed wires");
+            e.stage(&format!("impl: building+proving {what}"));
+            match std::panic::catch_unwind(std::panic::AssertUnwindSafe(|| { let (d, pw) = prog.build(config.clone()); let p = d.prove(pw)?; d.verify(p.clone())?; anyhow::Ok(p) })) {
+                Ok(Ok(p)) => if p.public_inputs != expected { e.oracle_failures.push(format!("public inputs differ from direct evaluation (the circuit computes the wrong power); {what}")); },
+                Ok(Err(er)) => e.oracle_failures.push(format!("prove/verify failed on a satisfiable circuit: {er:#}; {what}")),
+                Err(_) => e.oracle_failures.push(format!("build/prove panicked; {what}")),
+            }
+            e.count("wide-row gadget case");
+        }
+    }
     let n_sched = if thorough { schedules.len() } else { 5 };
     let first = r.below(schedules.len() as u64) as usize;
     let sweep: Vec<(usize, Option<FriReductionStrategy>)> = (0..n_sched).map(|k| (1000 + k, Some(schedules[(first + k) % schedules.len()].clone()))).collect();
